@@ -660,7 +660,7 @@ Lemma gap_witness :
                 /\ fields_of monrovia t' = Fields 1972 1 6 23 59 30 0.
 Proof.
   split; [split; reflexivity|]. split; [vm_compute; split; discriminate|]. split; [vm_compute; reflexivity|].
-  eexists. split; vm_compute; reflexivity.
+  exists (63593040 * giga). split; vm_compute; reflexivity.
 Qed.
 
 (* a locale whose pm marker is not "pm" (Arabic) *)
@@ -669,7 +669,7 @@ Lemma localized_witness :
   fields_of (fun _ => 0) (1588784889 * giga) = Fields 2020 5 6 17 8 9 0
   /\ exists t', datetime_from_string (fun _ => 0) ara_env (format_datetime (fun _ => 0) ara_env (1588784889 * giga)) = Some t'
                 /\ fields_of (fun _ => 0) t' = Fields 2020 5 6 5 8 0 0.
-Proof. split; [vm_compute; reflexivity|]. eexists. split; vm_compute; reflexivity. Qed.
+Proof. split; [vm_compute; reflexivity|]. exists (1588741680 * giga). split; vm_compute; reflexivity. Qed.
 
 (* the hypotheses of the positive statements are satisfiable *)
 Example roundtrip_hyps_sat :
